@@ -60,6 +60,11 @@ CHECKS = {
         text="Structure-aware hostile inputs (every embedded length set to -1/-2^31/2^31-1/remaining+1/2^24, every head's wire type swapped, truncations, list counts beyond fixed arrays, nesting bombs of StructBegin/LIST/MAP/mixed up to the 10 MiB maximum packet, random bytes, hostile TUP sets, 0..4-byte frames) are fed to ReadFrom/ReadBlock of every generated struct, UniAttribute.Decode, ResponseUnpack, Protocol.Invoke and InvokeTimeout. A recovered panic, allocation beyond 4096*len+1MiB, CPU beyond 5s/MiB+5s, or the death/hang of the child (attributed to the input logged ahead) is a violation.",
         note="Not a coverage-guided fuzzer; reach comes from mutating encodings of every schema. A clean run is 'no crash on K inputs', not memory safety. The live client receive goroutine (AdapterProxy.Recv) is exercised by the RPC checks, not here.",
         design="DESIGN.md §4 C05"),
+    "C07": dict(
+        technique="runtime monitor: recording protocol objects on the real server/client receive loops, scripted peer with explicit stream partitions, sequence-equality oracle",
+        text="Recording ServerProtocol/ClientProtocol objects sit on the real transport.TarsServer and transport.TarsClient loops and record the framing layer's output in order plus every buffer length shown (the read partitions that really occurred); a scripted peer sends packet sequences (1..200 packets, sizes around every boundary incl. max-1 and max) split as single bytes, inside the 4-byte prefix, at packet boundaries +-1, coalesced, randomly, with different pacing, for max-length settings 64/4096/1MiB/10MiB and pool 0/1. Recorded sequence must equal the sent sequence byte for byte and the handler copies must be a permutation; illegal prefixes (0,1,3,max+1,2^31,2^32-1) must close that connection only after the earlier packets were delivered, with a bystander connection unaffected; on the client a broken connection must be followed by a correctly framed new one.",
+        note="Kernel coalescing decides the receiver's read boundaries; the evidence reports the observed buffer-length sequences. MaxPackageLength is process-global, so settings run one after another.",
+        design="DESIGN.md §4 C07"),
 }
 
 NOT_BUILT_REASON = "check not built yet in this session (runtime-monitoring design exists in DESIGN.md §4; machinery in progress) — not claimed until its monitor runs silent on the unchanged tree"
